@@ -16,7 +16,7 @@ i,suf,mod,pkg=sys.argv[1:5]
 notes=open(sys.argv[5]+f'/{i}/notes.md').read()
 body=notes.split('\n',2)[2].strip() if notes.count('\n')>=2 else notes
 m={"id":f"{i}-{suf}","property":i,"change":body[:600],"needs_to_manifest":"see notes.md","module":mod,"package":pkg,
- "author":"independent sub-agent given only the property text and a scratch worktree (round 6)",
+ "author":"independent sub-agent given only the property text and a scratch worktree (round 7)",
  "confirmed":"tools/confirm_seed.sh in a scratch worktree: builds, existing package tests pass with the change, demo test fails with the change and passes without"}
 json.dump(m,open(f'/verif/seeded/{i}-{suf}/meta.json','w'),indent=1)
 PY
